@@ -60,7 +60,8 @@ def gen_plan(run_seed, tier, index):
     dn = r.choice([None, None] + model['namespaces'])
     n = r.randint(1, 6)
     ops = opgen.gen_program(stream(run_seed, 'ops'), model,
-                            dn or 'root/cimv2', n, valid_only=True)
+                            dn or 'root/cimv2', n, valid_only=True,
+                            with_export=True)
     fr = stream(run_seed, 'faults')
     faults = []
     nf = fr.choice([1, 1, 1, 2, 3])
@@ -176,6 +177,7 @@ RESULT_OK = {
         isinstance(q, CIMQualifierDeclaration) for q in v),
     'GetQualifier': lambda v: isinstance(v, CIMQualifierDeclaration),
     'SetQualifier': _none, 'DeleteQualifier': _none,
+    'ExportIndication': _none,
 }
 
 
